@@ -206,11 +206,13 @@ impl SocketSend for PubSocket {
                     match res {
                         Ok(()) => {}
                         Err(ZmqError::Codec(CodecError::Io(e))) => {
-                            if e.kind() == ErrorKind::BrokenPipe {
-                                dead_peers.push(subscriber.key().clone());
-                            } else {
+                            // A write that failed, whatever the error kind
+                            // (EPIPE, ECONNRESET, ETIMEDOUT ...), means the
+                            // connection is gone: forget the subscriber.
+                            if e.kind() != ErrorKind::BrokenPipe {
                                 log::error!("Error receiving message: {:?}", e);
                             }
+                            dead_peers.push(subscriber.key().clone());
                         }
                         Err(ZmqError::BufferFull(_)) => {
                             // ignore silently. https://rfc.zeromq.org/spec/29/ says:
